@@ -10,6 +10,7 @@ import (
 	"runtime"
 	"strings"
 	"time"
+	"unsafe"
 )
 
 // Thread is one controlled goroutine. It only runs while it holds the baton.
@@ -36,6 +37,7 @@ type Thread struct {
 
 	waits []*waitReg // channel registrations of the pending select
 	vc    []uint32
+	rvc   rclock // exact happens-before clock (race detection)
 }
 
 type waitReg struct {
@@ -116,6 +118,9 @@ type Sched struct {
 
 	snap []ThreadInfo
 	idle bool
+
+	shadow map[unsafe.Pointer]*shadow
+	Races  []RaceReport
 
 	EnvData any // scenario scratch
 }
@@ -338,6 +343,9 @@ func (s *Sched) spawn(name string, app bool, f func()) *Thread {
 	t.what, t.en, t.parked = "start", alwaysEnabled, true
 	if s.cur != nil {
 		s.hbSpawn(s.cur, t)
+		if RaceOn {
+			t.rvc = s.raceRelease(s.cur)
+		}
 	}
 	go func() {
 		defer func() { s.exited <- t.ID }()
@@ -480,6 +488,7 @@ type Result struct {
 	Threads  []ThreadInfo
 	Ops      []string
 	NowNS    int64
+	Races    []RaceReport
 }
 
 // Picks returns the choice list (for replay).
@@ -536,7 +545,7 @@ func RunOnce(prefix []int, opt Options, body func()) *Result {
 			gone[<-s.exited] = true
 		}
 	}
-	res := &Result{Trace: s.Trace, End: s.End, PanicMsg: s.PanicMsg, Steps: s.steps, Used: s.used, Ops: s.Ops, NowNS: s.now}
+	res := &Result{Trace: s.Trace, End: s.End, PanicMsg: s.PanicMsg, Steps: s.steps, Used: s.used, Ops: s.Ops, NowNS: s.now, Races: s.Races}
 	s.snapshot()
 	res.Threads = s.snap
 	return res
